@@ -14,7 +14,9 @@ pub const OFFS: [i16; 8] = [0, -1, -2, 1, 2, 3, -32768, 32767];
 /// cel shapes: 0 full canvas, 1 absent, 2 linked to the other frame, 3 1x1, 4 2x3, 5 5x4
 pub const NSHAPE: usize = 6;
 /// per-layer coordinate alphabets: blend, layer opacity, visible, kind, cel shape, x, y, cel opacity
-pub const LAYER_DIMS: [usize; 8] = [5, 4, 2, 4, NSHAPE, 8, 8, 4];
+pub const LAYER_DIMS: [usize; 8] = [5, 4, 4, 4, NSHAPE, 8, 8, 4];
+/// layer flag words of the `vis` coordinate: visible+editable, hidden, visible+background+locked, visible + every other defined bit
+pub const LAYER_FLAGS: [u16; 4] = [3, 2, 1 | 4 | 8, 1 | 2 | 0x10 | 0x20 | 0x40];
 
 pub const CW: u16 = 3;
 pub const CH: u16 = 2;
@@ -53,7 +55,7 @@ pub fn stack_sprite_on(v: &[usize], cw: u16, chh: u16) -> File {
         l.level = level;
         l.blend = BLENDS[c[0]];
         l.opacity = OPS[c[1]];
-        l.flags = if c[2] == 0 { 3 } else { 2 };
+        l.flags = LAYER_FLAGS[c[2]];
         f.frames[0].push(Body::Layer(l));
         layer_index.push(idx);
         idx += 1;
@@ -110,7 +112,7 @@ pub fn run(ctx: &Ctx) -> i32 {
         }
         let dims: Vec<usize> = (0..n).flat_map(|_| LAYER_DIMS.iter().copied()).collect();
         let vecs = ball_vec(&dims, k);
-        ctx.family(&fam, vecs.len() as u64, &format!("{}-layer stacks on a 3x2 canvas (2 frames): all vectors within Hamming distance {} of the default over per-layer coordinates blend x5, layer opacity x4, visible x2, kind {{image, child of visible group, child of hidden group, tilemap}}, cel shape {{full, absent, linked, 1x1, 2x3, 5x4}}, x x8, y x8 (incl. i16 extremes), cel opacity x4", n, k), true);
+        ctx.family(&fam, vecs.len() as u64, &format!("{}-layer stacks on a 3x2 canvas (2 frames): all vectors within Hamming distance {} of the default over per-layer coordinates blend x5, layer opacity x4, layer flags x4 {{visible, hidden, visible+background, visible+all other bits}}, kind {{image, child of visible group, child of hidden group, tilemap}}, cel shape {{full, absent, linked, 1x1, 2x3, 5x4}}, x x8, y x8 (incl. i16 extremes), cel opacity x4", n, k), true);
         vecs.par_iter().for_each(|v| {
             let case = || describe(v);
             if !ctx.wants(&fam, &case) {
@@ -142,12 +144,82 @@ pub fn run(ctx: &Ctx) -> i32 {
             conform(ctx, &fam, &case, &f, &want);
         });
     }
+    // the header's flag word (bit 0 = "layer opacity valid" in Aseprite) is not part of the composition the property defines
+    if ctx.wants_family("header-flags") {
+        let dims: Vec<usize> = (0..2).flat_map(|_| LAYER_DIMS.iter().copied()).collect();
+        let vecs = ball_vec(&dims, 1);
+        let flags = [0u32, 2, 0xFFFF_FFFE, 0xFFFF_FFFF, 0x8000_0001];
+        ctx.family("header-flags", (vecs.len() * flags.len()) as u64, "two-layer stacks (radius-1 ball) x header flag word in {0, 2, 0xFFFFFFFE, 0xFFFFFFFF, 0x80000001}: the composition uses the layer opacity whatever the flag word says", true);
+        vecs.par_iter().for_each(|v| {
+            for fl in flags {
+                let case = || format!("{} header.flags={:#x}", describe(v), fl);
+                if !ctx.wants("header-flags", &case) {
+                    continue;
+                }
+                let mut f = stack_sprite(v);
+                f.header.flags = fl;
+                conform(ctx, "header-flags", &case, &f, &want);
+            }
+        });
+    }
+    nested(ctx, thorough);
     offsets(ctx, thorough);
     opacities(ctx);
     orders(ctx);
     links(ctx);
     ctx.assume("reference blend functions = C++ transcription of Aseprite's blend_funcs.cpp (validated against 39 GUI-rendered corpus images by `mc selftest`)");
     ctx.finish()
+}
+
+/// nested groups with overlapping, blended, semi-transparent cels: every forest of up to 5 (thorough 6)
+/// layers x every visibility assignment x blend mode per leaf in {Normal, Multiply}
+fn nested(ctx: &Ctx, thorough: bool) {
+    let maxn = if thorough { 6 } else { 5 };
+    let want = Want::all();
+    for n in 2..=maxn {
+        let fam = format!("nested-n{}", n);
+        if !ctx.wants_family(&fam) {
+            continue;
+        }
+        let fs = crate::props::c09::forests(n);
+        let mut total = 0u64;
+        for lv in &fs {
+            let leaves = (0..n).filter(|i| !(i + 1 < n && lv[i + 1] > lv[*i])).count();
+            total += (1u64 << n) * (1u64 << leaves);
+        }
+        ctx.family(&fam, total, &format!("all {} forests of {} layers (groups nested to any depth) x all visible-flag assignments x blend mode Normal/Multiply per leaf; every leaf holds a full-canvas semi-transparent cel with its own layer and cel opacity, so the composition order and the ancestors' visibility both show in every pixel", fs.len(), n), true);
+        fs.par_iter().for_each(|lv| {
+            let leaf_idx: Vec<usize> = (0..n).filter(|i| !(i + 1 < n && lv[i + 1] > lv[*i])).collect();
+            for vis in 0..(1u32 << n) {
+                for bl in 0..(1u32 << leaf_idx.len()) {
+                    let case = || format!("{:?} vis={:0w$b} blend={:b}", lv, vis, bl, w = n);
+                    if !ctx.wants(&fam, &case) {
+                        continue;
+                    }
+                    let fmt = Fmt::Rgba;
+                    let mut f = gen::file(CW, CH, &fmt, &[10]);
+                    for i in 0..n {
+                        let is_group = !leaf_idx.contains(&i);
+                        let mut l = if is_group { Layer::group(&format!("g{}", i)) } else { Layer::image(&format!("l{}", i)) };
+                        l.level = lv[i];
+                        l.flags = if vis >> i & 1 == 1 { 3 } else { 2 };
+                        l.opacity = 255 - 20 * i as u8;
+                        if is_group {
+                            l.blend = 9;
+                        } else {
+                            let k = leaf_idx.iter().position(|x| *x == i).unwrap();
+                            l.blend = if bl >> k & 1 == 1 { 1 } else { 0 };
+                        }
+                        f.frames[0].push(Body::Layer(l));
+                    }
+                    for (k, i) in leaf_idx.iter().enumerate() {
+                        f.frames[0].push(raw_cel(*i as u16, 0, 0, 250 - 30 * k as u8, CW, CH, pixels(&fmt, CW as usize, CH as usize, 40 + *i as u32, (0, 0))));
+                    }
+                    conform(ctx, &fam, &case, &f, &want);
+                }
+            }
+        });
+    }
 }
 
 /// (i) one layer, every small cel size at every offset around the canvas
